@@ -45,7 +45,8 @@ def exec_sm(scn):
     text = concretize(scn, style=scn["variant"] % 3, extra_charts=extra)
     ftok = lex(text)
     # the lexer says "1.0" for meter? keep strings as the file has them
-    rec = {"id": scn["id"] + "/read", "op": "read", "cls": f"sm.read.{scn['type']}", "exc": "", "file": ftok, "charts": [],
+    rec = {"id": scn["id"] + "/read", "op": "read", "cls": f"sm.read.{scn['type']}" if not scn.get("ext") else "ext.sm.read.stops",
+           "ext": bool(scn.get("ext")), "exc": "", "file": ftok, "charts": [],
            "set": {}, "hdr_title": scn.get("title", "Song"), "hdr_artist": scn.get("artist", "Art"), "slack": 0}
     try:
         via = scn["variant"] % 4
